@@ -29,10 +29,10 @@ pub(crate) fn get_backup_path(file: &Path) -> Result<PathBuf> {
 pub(crate) fn needs_backup(file: &Path, conf: &Config) -> Result<bool> {
     let need = match conf.backup {
         Backup::None => false,
-        Backup::Auto if file.exists() => {
+        Backup::Auto if file.try_exists()? => {
             has_backup(file)?
         }
-        Backup::Numbered if file.exists() => true,
+        Backup::Numbered if file.try_exists()? => true,
         _ => false,
     };
     Ok(need)
@@ -59,21 +59,22 @@ fn filename(path: &Path) -> Result<OsString> {
 
 fn has_backup(file: &Path) -> Result<bool> {
     let fname = filename(file)?;
-    let exists = ls_file_dir(file)?
-        .any(|der| if let Ok(de) = der {
-            is_num_backup(&fname, &de.path()).is_some()
-        } else {
-            false
-        });
-    Ok(exists)
+    for der in ls_file_dir(file)? {
+        if is_num_backup(&fname, &der?.path()).is_some() {
+            return Ok(true)
+        }
+    }
+    Ok(false)
 }
 
 fn next_backup_num(file: &Path) -> Result<u64> {
     let fname = filename(file)?;
-    let current = ls_file_dir(file)?
-        .filter_map(|der| is_num_backup(&fname, &der.ok()?.path()))
-        .max()
-        .unwrap_or(0);
+    let mut current = 0;
+    for der in ls_file_dir(file)? {
+        if let Some(num) = is_num_backup(&fname, &der?.path()) {
+            current = current.max(num);
+        }
+    }
     Ok(current + 1)
 }
 
